@@ -1,32 +1,59 @@
 (** C13, batch part: the CLI loop over several inputs (Interp/Batch.v).  What is reported for an
-    input, and what is left at its output path, is what compiling it alone reports and leaves; the
-    exit status is failure iff some input failed; permuting the inputs permutes the reports. *)
+    input, and what is left at an output path, is what compiling the input alone reports and leaves
+    -- unless its output path was used by an earlier input, in which case it is refused and touches
+    nothing; the exit status is failure iff something other than "ok" was reported; permuting inputs
+    with distinct output paths permutes the reports. *)
 From RS Require Import Base.Bytes Base.Outcome Bind.Types Lex.Tokens Interp.Run Interp.Batch.
 From Coq Require Import Permutation PeanoNat Lia.
 Open Scope N_scope.
 
 Definition panics (files : list (bytes * bytes)) (i : input) : Prop :=
   exists s, run_src files (in_src i) = RunPanic s.
-Definition fails (files : list (bytes * bytes)) (i : input) : Prop :=
-  match run_src files (in_src i) with RunOk _ _ _ => False | _ => True end.
-
 Definition is_panic_b (files : list (bytes * bytes)) (i : input) : bool :=
   match run_src files (in_src i) with RunPanic _ => true | _ => false end.
-Definition fails_b (files : list (bytes * bytes)) (i : input) : bool :=
-  match run_src files (in_src i) with RunOk _ _ _ => false | _ => true end.
 
-(** the inputs the process gets to: all of them, or up to and including the first that panics *)
-Fixpoint reached (files : list (bytes * bytes)) (l : list input) : list input :=
+(** the output paths a list of inputs asks for *)
+Definition outs (l : list input) : list string :=
+  flat_map (fun i => match in_out i with Some o => [o] | None => [] end) l.
+
+(** what is reported for an input compiled on its own *)
+Definition alone_report (files : list (bytes * bytes)) (i : input) : report :=
+  match in_out i with
+  | None => {| rp_in := in_path i; rp_verdict := RefusedNoName |}
+  | Some _ => report_of files i
+  end.
+Definition refusal (i : input) (o : string) : report := {| rp_in := in_path i; rp_verdict := RefusedOutputUsed o |}.
+
+(** a report that is not "<in> -> <out> ok" *)
+Definition bad_report (r : report) : Prop :=
+  match rp_verdict r with Compiled (RunOk _ _ _) => False | _ => True end.
+
+(** the reports of a batch, by recursion on the inputs, given the output paths already used:
+    stops after an input that panics *)
+Fixpoint expected (files : list (bytes * bytes)) (us : list string) (l : list input) : list report :=
   match l with
   | [] => []
-  | i :: r => if is_panic_b files i then [i] else i :: reached files r
+  | i :: r =>
+    match in_out i with
+    | None => alone_report files i :: expected files us r
+    | Some o =>
+      if used o us then refusal i o :: expected files us r
+      else report_of files i :: (if is_panic_b files i then [] else expected files (us ++ [o]) r)
+    end
   end.
 
-Lemma reached_no_panic files l : Forall (fun i => ~ panics files i) l -> reached files l = l.
+(** the first input that asks for the output path [o] *)
+Definition asks_for (o : string) (i : input) : bool :=
+  match in_out i with Some o' => String.eqb o o' | None => false end.
+Definition first_for (o : string) (l : list input) : option input := find (asks_for o) l.
+
+Lemma used_app o a b : used o (a ++ b) = used o a || used o b.
+Proof. unfold used. apply existsb_app. Qed.
+Lemma used_in o l : used o l = true <-> In o l.
 Proof.
-  induction 1 as [|i r Hi _ IH]; [reflexivity|]. cbn [reached]. unfold is_panic_b.
-  destruct (run_src files (in_src i)) eqn:E; try (rewrite IH; reflexivity).
-  exfalso. apply Hi. eexists; exact E.
+  unfold used. rewrite existsb_exists. split.
+  - intros (x & Hx & E). apply String.eqb_eq in E. subst. exact Hx.
+  - intros H. exists o. split; [exact H|apply String.eqb_refl].
 Qed.
 
 Section Batch.
@@ -41,82 +68,168 @@ Proof.
   assert (E : step st i = st) by (unfold batch_step; rewrite H; reflexivity). rewrite E. eapply IH; eauto.
 Qed.
 
-Lemma step_facts st i : b_aborted st = None ->
+(** one step, case by case *)
+Lemma step_noname st i : b_aborted st = None -> in_out i = None -> step st i = refuse st i RefusedNoName.
+Proof. intros H E. unfold batch_step. rewrite H, E. reflexivity. Qed.
+Lemma step_used st i o : b_aborted st = None -> in_out i = Some o -> used o (b_used st) = true ->
+  step st i = refuse st i (RefusedOutputUsed o).
+Proof. intros H E U. unfold batch_step. rewrite H, E, U. reflexivity. Qed.
+Lemma step_compiled st i o : b_aborted st = None -> in_out i = Some o -> used o (b_used st) = false ->
   b_reports (step st i) = b_reports st ++ [report_of files i]
-  /\ b_status (step st i) = (if fails_b files i then ExitFailure else b_status st)
-  /\ (if is_panic_b files i then exists s, b_aborted (step st i) = Some s else b_aborted (step st i) = None).
+  /\ b_used (step st i) = b_used st ++ [o]
+  /\ (is_panic_b files i = false -> b_aborted (step st i) = None)
+  /\ (is_panic_b files i = true -> exists s, b_aborted (step st i) = Some s)
+  /\ (b_status (step st i) = ExitFailure <-> b_status st = ExitFailure \/ bad_report (report_of files i)).
 Proof.
-  intros H. unfold batch_step, fails_b, is_panic_b. rewrite H. cbv zeta.
-  change (rp_result (report_of files i)) with (run_src files (in_src i)).
-  destruct (run_src files (in_src i)); cbn [b_reports b_status b_aborted]; repeat split; eauto.
+  intros H E U. unfold batch_step, is_panic_b, bad_report, report_of. rewrite H, E, U. cbv zeta. cbn [rp_verdict].
+  destruct (run_src files (in_src i)); cbn [b_reports b_used b_aborted b_status]; repeat split; eauto; try discriminate; tauto.
 Qed.
 
-(** the reports and the status, for any starting accumulator that has not aborted *)
+(** the reports of the whole batch *)
 Lemma fold_reports : forall l st, b_aborted st = None ->
-  b_reports (fold_left step l st) = b_reports st ++ map (report_of files) (reached files l)
-  /\ (b_status (fold_left step l st) = ExitFailure <->
-      b_status st = ExitFailure \/ existsb (fails_b files) (reached files l) = true).
+  b_reports (fold_left step l st) = b_reports st ++ expected files (b_used st) l.
 Proof.
-  induction l as [|i r IH]; intros st H.
-  - cbn [fold_left reached map existsb]. rewrite app_nil_r. split; [reflexivity|]. split; [auto|intros [?|?]; [auto|discriminate]].
-  - cbn [fold_left reached]. destruct (step_facts st i H) as (R & S & A). set (st' := step st i) in *.
-    destruct (is_panic_b files i) eqn:P.
-    + destruct A as [s A]. rewrite (fold_aborted r st' s A). rewrite R, S. cbn [map existsb]. rewrite orb_false_r.
-      split; [reflexivity|]. destruct (fails_b files i); [tauto|]. split; [tauto|intros [?|?]; [assumption|discriminate]].
-    + destruct (IH st' A) as [R' S']. rewrite R', R, S', S. split.
-      * rewrite <- app_assoc. reflexivity.
-      * cbn [existsb]. destruct (fails_b files i); cbn [orb]; [tauto|]. tauto.
+  induction l as [|i r IH]; intros st H; [cbn; rewrite app_nil_r; reflexivity|].
+  cbn [fold_left expected]. destruct (in_out i) as [o|] eqn:E.
+  - destruct (used o (b_used st)) eqn:U.
+    + rewrite (step_used st i o H E U). rewrite IH by reflexivity. cbn [refuse b_reports b_used].
+      rewrite <- app_assoc. reflexivity.
+    + destruct (step_compiled st i o H E U) as (R & Us & A0 & A1 & _).
+      destruct (is_panic_b files i) eqn:P.
+      * destruct (A1 eq_refl) as [s A]. rewrite (fold_aborted r _ s A), R. reflexivity.
+      * rewrite IH by (apply A0; reflexivity). rewrite R, Us, <- app_assoc. reflexivity.
+  - rewrite (step_noname st i H E). rewrite IH by reflexivity. cbn [refuse b_reports b_used].
+    rewrite <- app_assoc. unfold alone_report. rewrite E. reflexivity.
 Qed.
 
-Theorem batch_reports f inputs :
-  b_reports (run_batch keep files f inputs) = map (report_of files) (reached files inputs).
-Proof. unfold run_batch. destruct (fold_reports inputs (batch_init f) eq_refl) as [R _]. exact R. Qed.
+Theorem batch_reports f inputs : b_reports (run_batch keep files f inputs) = expected files [] inputs.
+Proof. unfold run_batch. rewrite fold_reports by reflexivity. reflexivity. Qed.
 
-(** the report for an input at any position of any batch is the report of compiling it alone *)
+(** without panics: every input gets exactly one report, and the used paths are those asked for *)
+Lemma expected_np : forall l, Forall (fun i => ~ panics files i) l ->
+  forall us, length (expected files us l) = length l.
+Proof.
+  induction 1 as [|i r Hi _ IH]; intros us; [reflexivity|]. cbn [expected length].
+  destruct (in_out i) as [o|]; [|cbn [length]; rewrite IH; reflexivity].
+  destruct (used o us); cbn [length]; [rewrite IH; reflexivity|].
+  unfold is_panic_b. destruct (run_src files (in_src i)) eqn:E; try (rewrite IH; reflexivity).
+  exfalso. apply Hi. eexists; exact E.
+Qed.
+
+Lemma expected_app : forall pre us rest, Forall (fun i => ~ panics files i) pre ->
+  exists us', expected files us (pre ++ rest) = expected files us pre ++ expected files us' rest
+              /\ (forall o, used o us' = used o us || used o (outs pre)).
+Proof.
+  induction pre as [|i r IH]; intros us rest Hp.
+  - exists us. split; [reflexivity|]. intros o. cbn. rewrite orb_false_r. reflexivity.
+  - inversion Hp as [|? ? Hi Hr]; subst. cbn [app expected outs flat_map]. fold (outs r).
+    destruct (in_out i) as [o|] eqn:E.
+    + destruct (used o us) eqn:U.
+      * destruct (IH us rest Hr) as (us' & E1 & E2). exists us'. split; [rewrite E1; reflexivity|].
+        intros o'. rewrite E2, used_app. cbn [used existsb]. rewrite orb_false_r.
+        destruct (String.eqb o' o) eqn:Q; [apply String.eqb_eq in Q; subst o'; rewrite U; reflexivity|reflexivity].
+      * assert (P : is_panic_b files i = false).
+        { unfold is_panic_b. destruct (run_src files (in_src i)) eqn:Q; try reflexivity. exfalso. apply Hi. eexists; exact Q. }
+        rewrite P. destruct (IH (us ++ [o]) rest Hr) as (us' & E1 & E2). exists us'. split; [rewrite E1; reflexivity|].
+        intros o'. rewrite E2, !used_app. cbn [used existsb]. rewrite !orb_false_r, orb_assoc. reflexivity.
+    + destruct (IH us rest Hr) as (us' & E1 & E2). exists us'. split; [rewrite E1; reflexivity|].
+      intros o'. rewrite E2. reflexivity.
+Qed.
+
+(** the report for an input at any position of any batch: the report of compiling it alone, unless
+    an earlier input already took its output path -- then the refusal *)
 Theorem batch_report_alone f f' pre x post :
   Forall (fun i => ~ panics files i) pre ->
   nth_error (b_reports (run_batch keep files f (pre ++ x :: post))) (length pre)
-  = nth_error (b_reports (run_batch keep files f' [x])) 0.
+  = Some (match in_out x with
+          | Some o => if used o (outs pre) then refusal x o else alone_report files x
+          | None => alone_report files x
+          end)
+  /\ nth_error (b_reports (run_batch keep files f' [x])) 0 = Some (alone_report files x).
 Proof.
-  intros Hp. rewrite !batch_reports.
-  assert (E : reached files (pre ++ x :: post) = pre ++ reached files (x :: post)).
-  { clear - Hp. induction Hp as [|i r Hi _ IH]; [reflexivity|]. cbn [app reached]. unfold is_panic_b in *.
-    destruct (run_src files (in_src i)) eqn:Q; try (rewrite IH; reflexivity). exfalso. apply Hi. eexists; exact Q. }
-  rewrite E, map_app. rewrite nth_error_app2 by (rewrite map_length; apply Nat.le_refl).
-  rewrite map_length, Nat.sub_diag. cbn [reached]. destruct (is_panic_b files x); reflexivity.
+  intros Hp. rewrite !batch_reports. split.
+  - destruct (expected_app pre [] (x :: post) Hp) as (us' & E1 & E2). rewrite E1.
+    rewrite nth_error_app2 by (rewrite expected_np by exact Hp; apply Nat.le_refl).
+    rewrite expected_np by exact Hp. rewrite Nat.sub_diag. cbn [expected]. unfold alone_report.
+    destruct (in_out x) as [o|]; [|reflexivity]. rewrite E2. cbn [used existsb orb].
+    fold (used o (outs pre)). destruct (used o (outs pre)); reflexivity.
+  - cbn [expected]. unfold alone_report. destruct (in_out x); reflexivity.
+Qed.
+
+(** the exit status is failure iff something other than "ok" was reported *)
+Lemma fold_status : forall l st,
+  (b_status st = ExitFailure <-> exists r, In r (b_reports st) /\ bad_report r) ->
+  (b_status (fold_left step l st) = ExitFailure <-> exists r, In r (b_reports (fold_left step l st)) /\ bad_report r).
+Proof.
+  induction l as [|i r IH]; intros st Inv; [exact Inv|]. cbn [fold_left]. apply IH.
+  destruct (b_aborted st) as [s|] eqn:A; [unfold batch_step; rewrite A; exact Inv|].
+  assert (Ref : forall v, (v = RefusedNoName \/ exists o, v = RefusedOutputUsed o) ->
+            (b_status (refuse st i v) = ExitFailure <-> exists r0, In r0 (b_reports (refuse st i v)) /\ bad_report r0)).
+  { intros v Hv. cbn [refuse b_status b_reports]. split; [|reflexivity]. intros _.
+    exists {| rp_in := in_path i; rp_verdict := v |}. split; [apply in_or_app; right; left; reflexivity|].
+    unfold bad_report. cbn. destruct Hv as [->|[o ->]]; exact I. }
+  destruct (in_out i) as [o|] eqn:E.
+  - destruct (used o (b_used st)) eqn:U.
+    + rewrite (step_used st i o A E U). apply Ref. right. eexists; reflexivity.
+    + destruct (step_compiled st i o A E U) as (R & _ & _ & _ & S). rewrite S, R, Inv. split.
+      * intros [(r0 & I0 & B0)|B]; [exists r0; split; [apply in_or_app; left; exact I0|exact B0]|].
+        exists (report_of files i). split; [apply in_or_app; right; left; reflexivity|exact B].
+      * intros (r0 & I0 & B0). apply in_app_or in I0. destruct I0 as [I0|[<-|[]]]; [left; eauto|right; exact B0].
+  - rewrite (step_noname st i A E). apply Ref. left. reflexivity.
 Qed.
 
 Theorem batch_status f inputs :
-  b_status (run_batch keep files f inputs) = ExitFailure <-> exists i, In i (reached files inputs) /\ fails files i.
+  b_status (run_batch keep files f inputs) = ExitFailure <->
+  exists r, In r (b_reports (run_batch keep files f inputs)) /\ bad_report r.
 Proof.
-  unfold run_batch. destruct (fold_reports inputs (batch_init f) eq_refl) as [_ S]. rewrite S. cbn [batch_init b_status].
-  rewrite existsb_exists. split.
-  - intros [H|(i & Hi & Hf)]; [discriminate|]. exists i. split; [exact Hi|]. unfold fails, fails_b in *.
-    destruct (run_src files (in_src i)); [discriminate|exact I|exact I].
-  - intros (i & Hi & Hf). right. exists i. split; [exact Hi|]. unfold fails, fails_b in *.
-    destruct (run_src files (in_src i)); [contradiction|reflexivity|reflexivity].
+  unfold run_batch. apply fold_status. cbn. split; [discriminate|intros (r & [] & _)].
+Qed.
+
+(** inputs with pairwise distinct output paths: everything is as if compiled alone, so permuting the
+    inputs permutes the reports and keeps the exit status *)
+Lemma expected_distinct : forall l us, Forall (fun i => ~ panics files i) l -> NoDup (outs l) ->
+  (forall o, In o (outs l) -> used o us = false) ->
+  expected files us l = map (alone_report files) l.
+Proof.
+  induction l as [|i r IH]; intros us Hp Hd Hu; [reflexivity|].
+  inversion Hp as [|? ? Hi Hr]; subst. cbn [expected map outs flat_map] in *. fold (outs r) in *. unfold alone_report at 2.
+  destruct (in_out i) as [o|] eqn:E.
+  - cbn [app] in Hd, Hu. inversion Hd as [|? ? Hni Hd']; subst.
+    rewrite (Hu o (or_introl eq_refl)).
+    assert (P : is_panic_b files i = false).
+    { unfold is_panic_b. destruct (run_src files (in_src i)) eqn:Q; try reflexivity. exfalso. apply Hi. eexists; exact Q. }
+    rewrite P. f_equal. apply IH; try assumption. intros o' Ho'. rewrite used_app, (Hu o' (or_intror Ho')).
+    cbn [used existsb orb]. rewrite orb_false_r. destruct (String.eqb o' o) eqn:Q; [|reflexivity].
+    apply String.eqb_eq in Q. subst o'. contradiction.
+  - cbn [app] in Hd, Hu. unfold alone_report at 1. rewrite E. f_equal. apply IH; assumption.
 Qed.
 
 Theorem batch_permutation f f' inputs inputs' :
-  Forall (fun i => ~ panics files i) inputs -> Permutation inputs inputs' ->
-  Permutation (b_reports (run_batch keep files f inputs)) (b_reports (run_batch keep files f' inputs'))
+  Forall (fun i => ~ panics files i) inputs -> NoDup (outs inputs) -> Permutation inputs inputs' ->
+  b_reports (run_batch keep files f inputs) = map (alone_report files) inputs
+  /\ Permutation (b_reports (run_batch keep files f inputs)) (b_reports (run_batch keep files f' inputs'))
   /\ b_status (run_batch keep files f inputs) = b_status (run_batch keep files f' inputs').
 Proof.
-  intros Hp P.
+  intros Hp Hd P.
   assert (Hp' : Forall (fun i => ~ panics files i) inputs').
   { rewrite Forall_forall in *. intros i Hi. apply Hp. eapply Permutation_in; [apply Permutation_sym; exact P|exact Hi]. }
-  split.
-  - rewrite !batch_reports, !reached_no_panic by assumption. apply Permutation_map. exact P.
-  - assert (S : forall g l, Forall (fun i => ~ panics files i) l ->
-                 (b_status (run_batch keep files g l) = ExitFailure <-> exists i, In i l /\ fails files i)).
-    { intros g l H. rewrite batch_status, reached_no_panic by exact H. tauto. }
-    pose proof (S f inputs Hp) as S1. pose proof (S f' inputs' Hp') as S2.
-    assert (Q : (exists i, In i inputs /\ fails files i) <-> (exists i, In i inputs' /\ fails files i)).
-    { split; intros (i & Hi & Hf); exists i; (split; [|exact Hf]);
-        [eapply Permutation_in; [exact P|exact Hi]|eapply Permutation_in; [apply Permutation_sym; exact P|exact Hi]]. }
-    destruct (b_status (run_batch keep files f inputs)); destruct (b_status (run_batch keep files f' inputs')); try reflexivity; exfalso.
-    + assert (X : ExitSuccess = ExitFailure) by (apply S1, Q, S2; reflexivity). discriminate.
-    + assert (X : ExitSuccess = ExitFailure) by (apply S2, Q, S1; reflexivity). discriminate.
+  assert (Hd' : NoDup (outs inputs')).
+  { eapply Permutation_NoDup; [|exact Hd]. unfold outs. apply Permutation_flat_map. exact P. }
+  assert (R1 : b_reports (run_batch keep files f inputs) = map (alone_report files) inputs)
+    by (rewrite batch_reports; apply expected_distinct; [assumption..|reflexivity]).
+  assert (R2 : b_reports (run_batch keep files f' inputs') = map (alone_report files) inputs')
+    by (rewrite batch_reports; apply expected_distinct; [assumption..|reflexivity]).
+  assert (PR : Permutation (b_reports (run_batch keep files f inputs)) (b_reports (run_batch keep files f' inputs')))
+    by (rewrite R1, R2; apply Permutation_map; exact P).
+  split; [exact R1|]. split; [exact PR|].
+  pose proof (batch_status f inputs) as S1. pose proof (batch_status f' inputs') as S2.
+  assert (Q : (exists r, In r (b_reports (run_batch keep files f inputs)) /\ bad_report r) <->
+              (exists r, In r (b_reports (run_batch keep files f' inputs')) /\ bad_report r)).
+  { split; intros (r & Hi & Hb); exists r; (split; [|exact Hb]);
+      [eapply Permutation_in; [exact PR|exact Hi]|eapply Permutation_in; [apply Permutation_sym; exact PR|exact Hi]]. }
+  destruct (b_status (run_batch keep files f inputs)); destruct (b_status (run_batch keep files f' inputs')); try reflexivity; exfalso.
+  - assert (X : ExitSuccess = ExitFailure) by (apply S1, Q, S2; reflexivity). discriminate.
+  - assert (X : ExitSuccess = ExitFailure) by (apply S2, Q, S1; reflexivity). discriminate.
 Qed.
 
 (** ** the output paths *)
@@ -140,7 +253,7 @@ Proof.
   destruct (String.eqb p q) eqn:E; [apply String.eqb_eq in E; congruence|]. apply lookup_remove_other. exact N.
 Qed.
 
-(** what one input leaves at its own output path *)
+(** what one input leaves at its own output path when it is compiled *)
 Definition leaves (i : input) : option content :=
   match run_src files (in_src i) with
   | RunOk pcap _ _ => Some (Whole pcap)
@@ -148,41 +261,57 @@ Definition leaves (i : input) : option content :=
   | RunPanic _ => Some Torn
   end.
 
-Lemma step_lookup_own st i : b_aborted st = None -> fs_lookup (in_out i) (b_fs (step st i)) = leaves i.
+Lemma step_fs_compiled st i o : b_aborted st = None -> in_out i = Some o -> used o (b_used st) = false ->
+  fs_lookup o (b_fs (step st i)) = leaves i
+  /\ forall p, p <> o -> fs_lookup p (b_fs (step st i)) = fs_lookup p (b_fs st).
 Proof.
-  intros H. unfold batch_step, leaves. rewrite H. cbv zeta. change (rp_result (report_of files i)) with (run_src files (in_src i)).
-  destruct (run_src files (in_src i)); cbn [b_fs]; try apply lookup_write_same.
-  destruct keep; [apply lookup_write_same|apply lookup_remove_same].
-Qed.
-Lemma step_lookup_other st i p : p <> in_out i -> fs_lookup p (b_fs (step st i)) = fs_lookup p (b_fs st).
-Proof.
-  intros N. unfold batch_step. destruct (b_aborted st); [reflexivity|]. cbv zeta. change (rp_result (report_of files i)) with (run_src files (in_src i)).
-  destruct (run_src files (in_src i)); cbn [b_fs]; try (apply lookup_write_other; exact N).
-  destruct keep; [apply lookup_write_other|apply lookup_remove_other]; exact N.
+  intros H E U. unfold batch_step, leaves. rewrite H, E, U. cbv zeta.
+  destruct (run_src files (in_src i)); cbn [b_fs]; (split; [try apply lookup_write_same|intros p N; try (apply lookup_write_other; exact N)]).
+  - destruct keep; [apply lookup_write_same|apply lookup_remove_same].
+  - destruct keep; [apply lookup_write_other|apply lookup_remove_other]; exact N.
 Qed.
 
-Lemma fold_lookup_other : forall l st p, ~ In p (map in_out l) ->
-  fs_lookup p (b_fs (fold_left step l st)) = fs_lookup p (b_fs st).
+Lemma fold_lookup : forall l st o, b_aborted st = None -> Forall (fun i => ~ panics files i) l ->
+  fs_lookup o (b_fs (fold_left step l st)) =
+  if used o (b_used st) then fs_lookup o (b_fs st)
+  else match first_for o l with Some x => leaves x | None => fs_lookup o (b_fs st) end.
 Proof.
-  induction l as [|i r IH]; intros st p N; [reflexivity|]. cbn [fold_left map In] in *.
-  rewrite IH by tauto. apply step_lookup_other. intros E. apply N. left. symmetry. exact E.
+  induction l as [|i r IH]; intros st o H Hp.
+  - cbn. destruct (used o (b_used st)); reflexivity.
+  - inversion Hp as [|? ? Hi Hr]; subst. cbn [fold_left first_for find]. unfold asks_for at 1.
+    destruct (in_out i) as [oi|] eqn:E.
+    + destruct (used oi (b_used st)) eqn:U.
+      * rewrite (step_used st i oi H E U). rewrite IH by (try reflexivity; assumption). cbn [refuse b_used b_fs].
+        destruct (used o (b_used st)) eqn:Uo; [reflexivity|].
+        destruct (String.eqb o oi) eqn:Q; [apply String.eqb_eq in Q; subst oi; congruence|reflexivity].
+      * destruct (step_compiled st i oi H E U) as (_ & Us & A0 & _ & _).
+        destruct (step_fs_compiled st i oi H E U) as [Own Oth].
+        assert (P : is_panic_b files i = false).
+        { unfold is_panic_b. destruct (run_src files (in_src i)) eqn:Q; try reflexivity. exfalso. apply Hi. eexists; exact Q. }
+        rewrite IH by (try (apply A0; exact P); assumption). rewrite Us, used_app. cbn [used existsb]. rewrite orb_false_r.
+        destruct (String.eqb o oi) eqn:Q.
+        -- apply String.eqb_eq in Q. subst oi. rewrite orb_true_r. fold (used o (b_used st)). rewrite U. exact Own.
+        -- rewrite orb_false_r. assert (N : o <> oi) by (intros ->; rewrite String.eqb_refl in Q; discriminate).
+           rewrite (Oth o N). reflexivity.
+    + rewrite (step_noname st i H E). rewrite IH by (try reflexivity; assumption). reflexivity.
 Qed.
 
-(** with pairwise distinct output paths, every output path ends up holding what its own input
-    leaves there when compiled alone, whatever else is on the command line and in whatever order *)
-Theorem batch_outputs f inputs x :
-  NoDup (map in_out inputs) -> Forall (fun i => ~ panics files i) inputs -> In x inputs ->
-  fs_lookup (in_out x) (b_fs (run_batch keep files f inputs)) = leaves x
-  /\ fs_lookup (in_out x) (b_fs (run_batch keep files f [x])) = leaves x.
+(** every output path ends up holding what the FIRST input that asked for it leaves there when that
+    input is compiled alone (later inputs asking for the same path are refused and touch nothing);
+    paths nobody asked for are untouched -- whatever else is on the command line, in whatever order *)
+Theorem batch_outputs f f' inputs o :
+  Forall (fun i => ~ panics files i) inputs ->
+  match first_for o inputs with
+  | Some x => fs_lookup o (b_fs (run_batch keep files f inputs)) = leaves x
+              /\ fs_lookup o (b_fs (run_batch keep files f' [x])) = leaves x
+  | None => fs_lookup o (b_fs (run_batch keep files f inputs)) = fs_lookup o f
+  end.
 Proof.
-  intros Hd Hp Hx. split; [|unfold run_batch; cbn [fold_left]; apply step_lookup_own; reflexivity].
-  unfold run_batch. generalize (batch_init f) (eq_refl : b_aborted (batch_init f) = None).
-  induction inputs as [|i r IH]; intros st Hst; [contradiction|].
-  cbn [map] in Hd. inversion Hd as [|? ? Hni Hd']; subst. inversion Hp as [|? ? Hpi Hp']; subst.
-  cbn [fold_left]. destruct Hx as [->|Hx].
-  - rewrite fold_lookup_other by exact Hni. apply step_lookup_own. exact Hst.
-  - apply IH; try assumption. unfold batch_step. rewrite Hst. cbv zeta. change (rp_result (report_of files i)) with (run_src files (in_src i)).
-    destruct (run_src files (in_src i)) eqn:E; try reflexivity. exfalso. apply Hpi. eexists; exact E.
+  intros Hp. unfold run_batch. rewrite (fold_lookup inputs (batch_init f) o eq_refl Hp). cbn [batch_init b_used used existsb b_fs].
+  destruct (first_for o inputs) as [x|] eqn:F; [|reflexivity]. split; [reflexivity|].
+  apply find_some in F. destruct F as [Hin Ha]. unfold asks_for in Ha. destruct (in_out x) as [ox|] eqn:E; [|discriminate].
+  apply String.eqb_eq in Ha. subst ox.
+  cbn [fold_left]. apply (step_fs_compiled (batch_init f') x o eq_refl E eq_refl).
 Qed.
 
 End Batch.
